@@ -1,5 +1,5 @@
 (* C12 -- EEPROM reads return exactly the stored bytes and parse to what they encode. *)
-From EC Require Import Base.Prelude Base.Bytes Wire.Layout Gen.SrcLayouts Sii.Range Sii.RangeProofs Sii.Parse Sii.ParseProofs Sii.Encode.
+From EC Require Import Base.Prelude Base.Bytes Wire.Layout Gen.SrcLayouts Sii.Range Sii.RangeProofs Sii.Parse Sii.ParseProofs Sii.Encode Sii.EncodeGeneral.
 Local Open Scope N_scope.
 
 (* Reading n bytes at word w the way eeprom_read_raw / eeprom_read do (start_at(w, n) then read /
@@ -92,3 +92,46 @@ Theorem c12_pdo_header_roundtrip : forall index n_entries sm sync name_idx flags
   le16 b = index /\ nth 2 b 0 = n_entries /\ nth 3 b 0 = sm /\ length b = 8%nat.
 Proof. exact pdo_header_roundtrip. Qed.
 Print Assumptions c12_pdo_header_roundtrip.
+
+(* The General category (ETG.2010 Table 7): every well-formed value of every field the
+   implementation reads - string indices, CoE details, FoE/EoE, flags, the signed E-bus current,
+   the four port types, the physical memory address - is read back exactly. *)
+Theorem c12_general_roundtrip : forall v, gen_wf v ->
+  exists g, parse_general (general_encode v) = Ok g /\
+    g_order_idx g = gv_order v /\ g_name_idx g = gv_name v /\
+    g_obs g = [Z.of_N (gv_group v); Z.of_N (gv_img v); Z.of_N (gv_order v); Z.of_N (gv_name v);
+               Z.of_N (gv_coe v); (if gv_foe v then 1 else 0)%Z; (if gv_eoe v then 1 else 0)%Z;
+               Z.of_N (gv_flags v); gv_ebus v;
+               Z.of_N (gv_p0 v); Z.of_N (gv_p1 v); Z.of_N (gv_p2 v); Z.of_N (gv_p3 v); Z.of_N (gv_pma v)].
+Proof. exact general_roundtrip. Qed.
+Print Assumptions c12_general_roundtrip.
+
+(* The string table (count, then length-prefixed strings) stored anywhere in the EEPROM inside the
+   range the category walk found for it, for ANY table of fewer than 256 strings of fewer than 256
+   bytes: string number idx (1-based) that fits the caller's capacity is read back as the idx-th
+   string, cleaned the way the implementation cleans it; 0 and numbers beyond the table are "no
+   string".  (A table filling its category to the last byte is excluded by the strict bound: the
+   implementation's skip refuses to move onto the end of the range.) *)
+Theorem c12_string_roundtrip : forall p r ss cap idx, prov_ok p ->
+  category p cat_strings = Ok (Some r) ->
+  holds p (r_pos r) (strings_encode ss) ->
+  r_pos r + N.of_nat (length (strings_encode ss)) < r_end r -> r_end r <= 131072 ->
+  (length ss < 256)%nat -> Forall (fun s => (length s < 256)%nat) ss ->
+  1 <= idx -> (N.to_nat idx <= length ss)%nat ->
+  N.of_nat (length (nth (N.to_nat idx - 1) ss [])) <= cap ->
+  find_string p cap idx = Ok (Some (clean (nth (N.to_nat idx - 1) ss []))).
+Proof. exact find_string_roundtrip. Qed.
+Print Assumptions c12_string_roundtrip.
+
+Theorem c12_string_beyond : forall p r ss cap idx, prov_ok p ->
+  category p cat_strings = Ok (Some r) -> holds p (r_pos r) (strings_encode ss) -> r_pos r < 131072 ->
+  (length ss < N.to_nat idx)%nat -> find_string p cap idx = Ok None.
+Proof. exact find_string_beyond. Qed.
+Print Assumptions c12_string_beyond.
+
+Theorem c12_string_example :
+  find_string ex_prov 64 1 = Ok (Some [69; 75; 49; 49; 48; 48]) /\
+  find_string ex_prov 64 2 = Ok (Some [67; 111; 117; 112; 108; 101; 114]) /\
+  find_string ex_prov 64 3 = Ok None.
+Proof. exact find_string_example. Qed.
+Print Assumptions c12_string_example.
